@@ -147,7 +147,7 @@ fn execute_one(
     let plan = scen.plan(&mut rng, tier, seed, run);
     let mut ctx = Ctx::new(keep_log);
     ctx.listed_known = listed.clone();
-    let r = scen.execute(&plan, &mut ctx);
+    let r = crate::core::run_plan(scen, &plan, &mut ctx);
     (plan, ctx, r)
 }
 
@@ -192,7 +192,7 @@ pub fn replay(scen: &dyn Scenario, path: &str, opts: &Options) -> i32 {
     let listed = KnownFindings::load().listed_for(scen.id());
     let mut ctx = Ctx::new(true);
     ctx.listed_known = listed;
-    let r = scen.execute(&plan, &mut ctx);
+    let r = crate::core::run_plan(scen, &plan, &mut ctx);
     for l in ctx.log.as_deref().unwrap_or(&[]) {
         opts.say(&format!("  {l}"));
     }
@@ -386,7 +386,7 @@ pub fn run_batch(scen: &dyn Scenario, opts: &Options) -> i32 {
                 Ok((plan, _)) => {
                     let mut ctx = Ctx::new(false);
                     ctx.listed_known = listed.clone();
-                    let r = scen.execute(&plan, &mut ctx);
+                    let r = crate::core::run_plan(scen, &plan, &mut ctx);
                     if r.is_ok() && ctx.known.get(id).copied().unwrap_or(0) > 0 {
                         opts.say(&format!(
                             "KNOWN-FINDING: property={prop} {id} {desc} (witness {wit} still fails; {} matching tokenizations in this batch)",
@@ -499,7 +499,7 @@ fn finish_violation(
     // final execution of the minimised plan, with the event log
     let mut ctx = Ctx::new(true);
     ctx.listed_known = listed.clone();
-    let v2 = match scen.execute(&min_plan, &mut ctx) {
+    let v2 = match crate::core::run_plan(scen, &min_plan, &mut ctx) {
         Err(v2) => v2,
         Ok(()) => {
             opts.say("HARNESS-ERROR: minimised plan does not fail");
